@@ -1039,6 +1039,33 @@ def s_sqrt(x):
     return math.sqrt(x)
 
 
+def s_hypot(*xs):
+    """math.hypot: sqrt of the sum of squares (exact when the sum is the square of a rational)"""
+    if not any(isinstance(x, Sym) for x in xs):
+        return math.hypot(*xs)
+    tot = 0
+    for x in xs:
+        tot = tot + x * x
+    if isinstance(tot, Sym):
+        v = z3.simplify(tot.t)
+        if z3.is_rational_value(v):
+            from fractions import Fraction
+
+            q = Fraction(v.numerator_as_long(), v.denominator_as_long())
+            rn, rd = math.isqrt(q.numerator), math.isqrt(q.denominator)
+            if rn * rn == q.numerator and rd * rd == q.denominator:
+                return SymReal(z3.RealVal(Fraction(rn, rd)))
+    return s_sqrt(tot)
+
+
+def s_copysign(x, y):
+    """math.copysign for reals (a zero second argument counts as positive: -0.0 is not modelled)"""
+    if not isinstance(x, Sym) and not isinstance(y, Sym):
+        return math.copysign(x, y)
+    ax = abs(x)
+    return ax if bool(y >= 0) else -ax  # forks
+
+
 _real_isinstance = isinstance
 
 
@@ -1179,6 +1206,8 @@ class MathShim:
     fmod = staticmethod(s_fmod)
     log2 = staticmethod(s_log2)
     sqrt = staticmethod(s_sqrt)
+    hypot = staticmethod(s_hypot)
+    copysign = staticmethod(s_copysign)
 
     def __getattr__(self, k):
         return getattr(math, k)
@@ -1192,6 +1221,9 @@ SHIMS = {
     "isfinite": s_isfinite,
     "fmod": s_fmod,
     "log2": s_log2,
+    "sqrt": s_sqrt,
+    "hypot": s_hypot,
+    "copysign": s_copysign,
     "isinstance": s_isinstance,
     "min": s_min,
     "max": s_max,
